@@ -117,7 +117,7 @@ pub fn draw_op_with(r: &mut Rng, allow_state: bool) -> WOp {
         98 => WOp::MaxDist { v },
         _ => {
             if allow_state && r.chance(2, 3) {
-                WOp::StateFin { v, class: r.below(6) as u8, seed: r.next_u64(), n: *r.pick(&[50u32, 1000, 1 << 24, 1 << 31, 4_224_281_216, 4_000_000_000]), o: if r.chance(1, 2) { 30 } else { 28 } }
+                WOp::StateFin { v, class: r.below(10) as u8, seed: r.next_u64(), n: *r.pick(&[50u32, 1000, 1 << 24, 1 << 31, 4_224_281_216, 4_000_000_000]), o: if r.chance(1, 2) { 30 } else { 28 } }
             } else {
                 let len = match r.below(6) {
                     0 => r.below(700),
@@ -143,7 +143,12 @@ pub fn state_buckets(class: u8, seed: u64) -> [u32; 256] {
         2 => (1 << 31) - 8,
         3 => (1u64 << 32) - 64,
         4 => 1 << 31,
-        _ => 40_000_000,
+        5 => 40_000_000,
+        // SIMD lane-width boundaries: values straddling i8 / u8 / i16 / u16 limits (narrowed compares, packs with saturation)
+        6 => 32767 - 8,
+        7 => 65535 - 8,
+        8 => 255 - 8,
+        _ => 127 - 8,
     };
     for x in b.iter_mut() {
         let v = match r.below(8) {
@@ -265,7 +270,15 @@ fn exec<K: Kind>(op: &WOp) -> String {
             let nb = (<K::H as FuzzyHashType>::SIZE_IN_BYTES as i64 + *delta as i64).max(0) as usize;
             let mut bb = vec![0x7eu8; nb];
             let r2 = h.store_into_bytes(&mut bb);
-            format!("format {:?} {} | {:?} {} | {}", r1, hex(&buf), r2, hex(&bb), h)
+            // Display with width, fill, alignment and precision: whatever the behaviour is, every configuration must share it
+            let fancy = match (*delta as i32).rem_euclid(5) {
+                0 => format!("{h:>80}"),
+                1 => format!("{h:<76}|"),
+                2 => format!("{h:.8}"),
+                3 => format!("{h:*^100}"),
+                _ => format!("{h:>10.40}"),
+            };
+            format!("format {:?} {} | {:?} {} | {} | {fancy}", r1, hex(&buf), r2, hex(&bb), h)
         }
         WOp::Compare { a, b, nolen, .. } => {
             let (Some(x), Some(y)) = (hash_of::<K>(a), hash_of::<K>(b)) else { return "compare: raw rejected".into() };
